@@ -75,6 +75,8 @@ class ShardState(object):
         self.excluded_dup = collections.Counter()
         self.excluded_known = collections.Counter()
         self.recent = collections.deque(maxlen=6)
+        self.timeouts = 0
+        self.case_timeout = 0
 
 
 def _describe(prop, case):
@@ -85,13 +87,56 @@ def _describe(prop, case):
         return case
 
 
+class CaseTimeout(BaseException):
+    """A single case exceeded its hard time limit (e.g. the real solver does not come back on
+    the program a broken tree hands it).  Inconclusive for that case, never a violation."""
+
+
+CASE_TIMEOUT = {'quick': 90, 'thorough': 600}
+
+
+def _alarm(signum, frame):
+    raise CaseTimeout()
+
+
+def _kill_children():
+    me = os.getpid()
+    for pid in os.listdir('/proc'):
+        if pid.isdigit():
+            try:
+                with open('/proc/%s/stat' % pid) as f:
+                    fields = f.read().rsplit(')', 1)[1].split()
+                if int(fields[1]) == me:
+                    os.kill(int(pid), 9)
+            except (OSError, IndexError, ValueError):
+                pass
+
+
+def run_with_limit(prop, case, limit):
+    """prop.run_case(case) under a hard wall-clock limit (SIGALRM in this worker process)."""
+    import signal
+    if not limit:
+        return prop.run_case(case)
+    signal.signal(signal.SIGALRM, _alarm)
+    signal.setitimer(signal.ITIMER_REAL, limit)
+    try:
+        return prop.run_case(case)
+    finally:
+        signal.setitimer(signal.ITIMER_REAL, 0)
+
+
 def _execute(prop, prop_id, case, st, open_entries, origin):
     """Run one concrete case, book-keep.  Never raises Violation."""
     st.evaluations += 1
     recent = list(st.recent)
     st.recent.append(case)
     try:
-        res = prop.run_case(case)
+        res = run_with_limit(prop, case, st.case_timeout)
+    except CaseTimeout:
+        _kill_children()
+        st.labels['case_timeout'] += 1
+        st.timeouts += 1
+        return
     except Violation as v:
         sig = v.signature(prop_id)
         k = known_match(prop, open_entries, sig, case)
@@ -144,11 +189,16 @@ def run_shard(args):
     t0 = time.time()
     st = ShardState()
     out = {'shard': shard, 'harness_error': None}
+    if os.environ.get('VERIF_DEBUG_HANG'):
+        import faulthandler
+        faulthandler.dump_traceback_later(int(os.environ['VERIF_DEBUG_HANG']), repeat=False,
+                                          file=open('/tmp/ft-%d.txt' % os.getpid(), 'w'))
     try:
         from hypothesis import Phase
         prop = load_prop(prop_id)
         open_entries = load_known(prop_id)
         sseed = shard_seed(seed, prop_id, shard)
+        st.case_timeout = CASE_TIMEOUT.get(tier, 90)
 
         # deterministic / exhaustive part, partitioned across shards
         ex = getattr(prop, 'exhaustive', None)
@@ -178,7 +228,10 @@ def run_shard(args):
                         if best['calls'] > shrink_cap:
                             return
                         try:
-                            prop.run_case(case)
+                            run_with_limit(prop, case, st.case_timeout)
+                        except CaseTimeout:
+                            _kill_children()
+                            return
                         except Violation as v:
                             if v.signature(prop_id) == sig and \
                                     known_match(prop, open_entries, sig, case) is None:
@@ -206,7 +259,8 @@ def run_shard(args):
                labels=dict(st.labels), counters=dict(st.counters),
                samples_nt=st.samples_nt, samples_any=st.samples_any,
                failures=st.failures, excluded_dup=dict(st.excluded_dup),
-               excluded_known=dict(st.excluded_known), wall=time.time() - t0)
+               excluded_known=dict(st.excluded_known), wall=time.time() - t0,
+               timeouts=st.timeouts)
     return out
 
 
@@ -377,6 +431,7 @@ def main(argv=None):
     failures = dict(st.failures)
     excluded_dup = collections.Counter(st.excluded_dup)
     excluded_known = collections.Counter(st.excluded_known)
+    case_timeouts = sum(r.get('timeouts', 0) for r in results)
     for r in results:
         if r['harness_error']:
             harness_errors.append('shard %d: %s' % (r['shard'], r['harness_error']))
@@ -450,6 +505,7 @@ def main(argv=None):
         'excluded_duplicate_signature': dict(excluded_dup),
         'exhaustive': bool(getattr(prop, 'EXHAUSTIVE', {}).get(a.tier, False)),
         'engine': getattr(prop, 'ENGINE', 'hypothesis'),
+        'case_timeouts': case_timeouts,
         'repo': common.REPO,
     }
     extra_cov = getattr(prop, 'coverage_extra', None)
@@ -490,6 +546,10 @@ def main(argv=None):
         for h in harness_errors[:3]:
             sys.stderr.write(h + '\n')
         print('HARNESS-ERROR property=%s (inconclusive)' % prop_id)
+        return 2
+    if case_timeouts:
+        print('HARNESS-ERROR property=%s %d case(s) exceeded the per-case time limit '
+              '(inconclusive)' % (prop_id, case_timeouts))
         return 2
     if starving:
         print('HARNESS-ERROR property=%s generator starved classes: %s' % (prop_id, starving))
